@@ -62,42 +62,55 @@ def display_part(ck):
     shutil.rmtree(scratch, ignore_errors=True)
     os.makedirs(scratch)
     try:
-        n = 150 if ck.tier == "quick" else 1500
+        n = 300 if ck.tier == "quick" else 3000
         reqs, meta = [], []
         for k in range(n):
-            s = gen.rand_text(ck.rng, max_lines=5)
-            if len(s) < 2:
-                s = "é = x\n" + s + "ab"
-            i = ck.rng.randint(0, len(s) - 1)
-            j = ck.rng.randint(i + 1, len(s))
-            li, ci, bi = gen.pos_of(s, i)
-            lj, cj, bj = gen.pos_of(s, j)
+            s = gen.rand_text(ck.rng, max_lines=6)
+            if len(s) < 8:
+                s = "é = x\n" + s + "abcdef\n  ü: 1,\n"
+            # 1-4 nodes at disjoint non-empty character ranges, pushed in an arbitrary order
+            # (entries are pushed in evaluation order, which need not be source order)
+            m = ck.rng.choice([1, 1, 2, 3, 4])
+            cuts = sorted(ck.rng.sample(range(0, len(s) + 1), min(2 * m, len(s) + 1) // 2 * 2))
+            ranges = [(cuts[2 * q], cuts[2 * q + 1]) for q in range(len(cuts) // 2)]
+            ck.rng.shuffle(ranges)
             fn = "f%d.rs" % k
             open(os.path.join(scratch, fn), "wb").write(s.encode("utf-8"))
-            reqs.append("display %s %s 1 %s 1 %d %d %d %d simple:%s %s none" % (hexs(scratch), hexs(fn), hexs(s), li, ci, lj, cj, hexs("p"), hexs("v")))
-            meta.append((s, i, j, bi, bj))
+            ents = []
+            want = []
+            for (i, j) in ranges:
+                li, ci, bi = gen.pos_of(s, i)
+                lj, cj, bj = gen.pos_of(s, j)
+                ents.append("%d %d %d %d simple:%s %s none" % (li, ci, lj, cj, hexs("p"), hexs("v")))
+                want.append("%d-%d" % (bi, bj))
+            reqs.append("display %s %s 1 %s %d %s" % (hexs(scratch), hexs(fn), hexs(s), len(ranges), " ".join(ents)))
+            meta.append((s, ranges, want))
         model = ck.lean_batch(reqs)
         impl = ck.rt_batch(reqs)
         dis = 0
-        for ln, md, im, (s, i, j, bi, bj) in zip(reqs, model, impl, meta):
+        multi = unordered = 0
+        for ln, md, im, (s, ranges, want) in zip(reqs, model, impl, meta):
             isp = im.split(" ")[1]
             msp = md.split(" ")[1]
-            want = "spans=%d-%d" % (bi, bj)
+            wsp = "spans=" + ",".join(want)
+            if len(ranges) > 1:
+                multi += 1
+                if ranges != sorted(ranges):
+                    unordered += 1
             if isp != msp or im.split(" ")[0] != md.split(" ")[0]:
                 dis += 1
                 if dis <= 3:
-                    ck.report("corr:span:" + hexs(s)[:40], "model and implementation of the annotation span disagree",
-                              dict(source=s, chars=[i, j], impl=im[:200], model=md[:200], broken="correspondence T4/annotation span"), no_input=(isp == want))
-            if isp != want:
-                line_start = s[:i].rfind("\n") + 1
-                nonascii = any(ord(ch) > 127 for ch in s[line_start:j])
-                ck.report("span-not-own-text" + ("" if nonascii else ":ascii"),
+                    ck.report("corr:span:" + hexs(s)[:40], "model and implementation of the annotation spans disagree",
+                              dict(source=s, char_ranges_in_push_order=ranges, impl=im[:200], model=md[:200], broken="correspondence T4/annotation span"), no_input=(isp == wsp))
+            if isp != wsp:
+                nonascii = any(ord(ch) > 127 for ch in s)
+                ck.report("span-not-own-text" + ("" if nonascii else ":ascii") + (":multi" if len(ranges) > 1 else ""),
                           "the byte range marked for a node is not the byte range of that node's characters",
-                          dict(source=s, chars=[i, j], impl_span=isp, spec_span=want, impl_status=im.split(" ")[0]))
+                          dict(source=s, char_ranges_in_push_order=ranges, impl_spans=isp, spec_spans=wsp, impl_status=im.split(" ")[0]))
         ck.corr_record("T4 Display spans (ErrorReport formatted over real files; recorded renderer spans vs annotationSpan and vs the node's own bytes)",
-                       len(reqs), len(set(reqs)), dis, {},
-                       samples=[dict(source=meta[0][0], chars=meta[0][1:3], impl=impl[0][:120])],
-                       rule="seeded random texts written to disk; one node located at a random non-empty character range; every case distinct")
+                       len(reqs), len(set(reqs)), dis, {"reports_with_several_entries": multi, "of_which_not_in_source_order": unordered},
+                       samples=[dict(source=meta[0][0], char_ranges_in_push_order=meta[0][1], impl=impl[0][:120])],
+                       rule="seeded random texts written to disk; 1-4 nodes at disjoint random non-empty character ranges pushed in random order; every case distinct")
     finally:
         shutil.rmtree(scratch, ignore_errors=True)
 
